@@ -98,12 +98,13 @@ type ContractSet struct {
 	Lemmas  []*Lemma
 	Consts  map[string]*Expr
 	Order   []string
+	Ghost   map[string]string   // ghost heap components: name -> sort of the per-object value
 	Closed  map[string]bool     // pkgpath.TypeName of interfaces treated as closed-world
 	TypeInv map[string][]*Clause // pkgpath.TypeName -> own-field object invariants
 }
 
 func NewContractSet() *ContractSet {
-	return &ContractSet{Funcs: map[string]*FuncContract{}, Specs: map[string]*SpecFun{}, Consts: map[string]*Expr{}, Closed: map[string]bool{}, TypeInv: map[string][]*Clause{}}
+	return &ContractSet{Funcs: map[string]*FuncContract{}, Specs: map[string]*SpecFun{}, Consts: map[string]*Expr{}, Ghost: map[string]string{}, Closed: map[string]bool{}, TypeInv: map[string][]*Clause{}}
 }
 
 // ParseContractFile reads //@ lines from a file. pkgPath is "" for extern files.
@@ -185,6 +186,9 @@ func (cs *ContractSet) ParseContractFile(path, pkgPath string) error {
 			cs.Funcs[k] = fc
 			cs.Order = append(cs.Order, k)
 			cur = fc
+		case "ghostheap":
+			name, srt := splitWord(rest)
+			cs.Ghost[name] = srt
 		case "closed":
 			for _, n := range strings.Fields(strings.ReplaceAll(rest, ",", " ")) {
 				cs.Closed[pkgPath+"."+n] = true
